@@ -126,7 +126,7 @@ pub fn gen_scalar(src: &mut Src) -> J {
         2 => J::Bool(true),
         3 => J::Int(*src.pick(&[0, 1, 2, -1, 3, 5, 10, 100, 1_700_000_000_000, 1_234_567_890_123_456, 4_294_967_296, -2_147_483_649])),
         4 => J::Float(*src.pick(&[1.0, 1.5, 0.5, -0.0, 2.0, 0.1, 1e2, -1.5, 0.0, 0.3, 0.30000000000000004, 1e-20])),
-        5 => J::Str(src.pick(&["", "a", "b", "ab", "1", "A", "é", "𝄞", "abc", " ", "a. b", "(", "f(x)", "2024-02-29T23:59:60Z", "R&D", "a%b#c;", "<a>{b}", "x+y=z", "a^b|c!", "9", "10", "010", "1e1", "Inf", "NaN", "true", "null"]).to_string()),
+        5 => J::Str(src.pick(&["", "a", "b", "ab", "1", "A", "é", "𝄞", "abc", " ", "a. b", "(", "f(x)", "2024-02-29T23:59:60Z", "R&D", "a%b#c;", "<a>{b}", "x+y=z", "a^b|c!", "9", "10", "010", "1e1", "Inf", "NaN", "true", "null", "\u{f6}", "\u{d6}l", "\u{410}\u{43d}\u{43d}\u{430}", "\u{411}\u{43e}\u{440}\u{438}\u{441}", "\u{65e5}\u{672c}", "\u{65e5}\u{4e2d}", "caf\u{e9}", "caf\u{e8}"]).to_string()),
         _ => match src.below(7) {
             4 => J::Str(src.pick(&["x", "é", "𝄞"]).repeat(*src.pick(&[64usize, 255, 256, 257, 1000]))),
             // integers beyond the I-JSON range (a document may hold them; a query literal may not): a
